@@ -85,8 +85,9 @@ func sanitisedOnly(c *Ctx, pa *provAnalysis, fns []*ssa.Function, comp string) (
 }
 
 func checkC14(c *Ctx, r *Report) {
-	r.Rules = []string{"D8 version schema decision table", "D8 semver split: rewrite only on successful parse, explicit prerelease/metadata win", "F13 separator literals in templates, file names and formatters", "F13 prerelease sanitised for rpm and archlinux", "epoch syntax"}
+	r.Rules = []string{"D8 version schema decision table", "D8 semver split: rewrite only on successful parse, explicit prerelease/metadata win", "F13 separator literals in templates, file names and formatters", "F13 prerelease sanitised for rpm and archlinux", "epoch syntax", "D8-order environment expansion precedes the defaults", "F13-width parsed components are not narrowed after the parse"}
 	r.Explanation = "Decision-table and literal-provenance rules. (D8) nfpm.WithDefaults is abstractly evaluated for version_schema in {none, semver, empty, anything else}: the semver split is dead for 'none' and live otherwise; inside the split the version is rewritten only on the success edge of the parse, from major/minor/patch alone, and prerelease and metadata are filled from the parsed version only behind an emptiness test of the same field (explicit values win; nothing is duplicated because the rewritten version carries no prerelease/metadata). (F13) in the deb and ipk control templates, in their conventional file names and in rpm's version formatter the literal immediately before the prerelease is '~' — the only character both dpkg and rpmvercmp order before the end of the string, so this literal is what makes every prerelease build sort before its release — metadata is introduced by '+', release by '-', the epoch is followed by ':' (deb/ipk) or goes to the numeric rpm epoch with its parse error returned; rpm and archlinux replace '-' by '_' in the prerelease. Concrete version comparison is not executed."
+	r.Explanation += " (D8-order) in the function that expands the configuration every WithDefaults call is dominated by the expansion. (F13-width) an epoch/release parsed with N bits is never converted to a narrower integer type."
 	r.Assumptions = []string{
 		"Masterminds/semver accepts the documented grammar (v-prefix, fewer than three parts) and Prerelease()/Metadata() return the parsed components",
 		"dpkg and rpm order '~' before anything including the end of the string (their documented comparison algorithms)",
@@ -99,6 +100,7 @@ func checkC14(c *Ctx, r *Report) {
 	}
 	checkParseOrder(c, r, wd)
 	checkParseWidth(c, r, pa)
+	checkVersionLines(c, r)
 	// the split function: the module function reachable from WithDefaults that calls semver.NewVersion
 	var split *ssa.Function
 	for _, fn := range sortedFuncs(c, c.Reach(wd)) {
@@ -195,6 +197,31 @@ func checkC14(c *Ctx, r *Report) {
 		}
 	})
 	r.Floor("D8-split", nStores, 3)
+	// ... and nowhere else on the defaults path is the version rewritten: a
+	// version that does not parse is used as configured
+	for _, fn := range sortedFuncs(c, c.Reach(wd)) {
+		if fn == split || !c.isModuleFunc(fn) {
+			continue
+		}
+		k := 0
+		forEachInstr(fn, func(in ssa.Instruction) {
+			st, ok := in.(*ssa.Store)
+			if !ok {
+				return
+			}
+			p, root := addrPath(st.Addr)
+			if root == nil || rootTypeName(root.Type()) != "Info" || !(p == "Version" || p == "Prerelease" || p == "VersionMetadata") {
+				return
+			}
+			k++
+			if guardedByEmptyTest(st, p) {
+				r.Pass("D8-split", fmt.Sprintf("defaults: store#%d to %s outside the semver split in %s", k, p, c.funcKey(fn)), c.instrPos(st), "default filling: stored only when the configured value is empty")
+				return
+			}
+			r.Fail("D8-split", fmt.Sprintf("defaults: store#%d to %s outside the semver split in %s", k, p, c.funcKey(fn)), c.instrPos(st),
+				"the version components are rewritten outside the success edge of the semver parse: a version that does not parse (or is meant verbatim) would not be packaged as configured")
+		})
+	}
 	checkSplitIndependence(c, r, split, parse, "D8-split")
 
 	// ---- F13 ----
@@ -445,4 +472,43 @@ func checkParseWidth(c *Ctx, r *Report, pa *provAnalysis) {
 		}
 	}
 	r.Floor("F13-width", n, 2)
+}
+
+// checkVersionLines: (F13-plain) in the deb and ipk control templates the
+// Version line prints the components as they are - plain field references,
+// no function in the printing actions or in the tests around them - so the
+// literals checked by F13 are all that is added; (lossless, imported from
+// C02-F3) the line states exactly epoch, version, prerelease, metadata and
+// release.
+func checkVersionLines(c *Ctx, r *Report) {
+	n := 0
+	for _, format := range []string{"deb", "ipk"} {
+		pk := c.PackagerByFormat(format)
+		if pk == nil {
+			continue
+		}
+		for _, ti := range templateConstants(c, c.Reach(pk.Package)) {
+			var funcs []string
+			rows := 0
+			for _, row := range ti.Rows {
+				if row.Label != "Version" {
+					continue
+				}
+				rows++
+				funcs = append(funcs, row.Funcs...)
+				funcs = append(funcs, row.GFuncs...)
+			}
+			if rows == 0 {
+				continue
+			}
+			n++
+			funcs = uniq(funcs)
+			r.Check(len(funcs) == 0, "F13-plain", format+": Version line prints the components as configured", c.pos(ti.Fn.Pos()),
+				fmt.Sprintf("functions applied on the Version line: %v; a component rewritten on the way (trimmed, re-formatted) no longer orders and reads as configured", funcs))
+		}
+	}
+	r.Floor("F13-plain", n, 2)
+	r.Floor("lossless-F3", importRules(c, r, checkC02, "lossless-", []string{"F3"}, func(o Obligation) bool {
+		return strings.HasSuffix(o.Construct, ": Version") || strings.Contains(o.Construct, "pkgver")
+	}), 2)
 }
